@@ -42,17 +42,19 @@ def bases():
         {"type": "select_one L", "name": "a1", "label": "A1"},
         {"type": "select_one L", "name": "a2", "label": "A2"},
         {"type": "end group"},
-        {"type": "text", "name": "t1", "label": "T1", "default": "x"},
+        {"type": "text", "name": "t1", "label": "T1", "default": "x", "disabled": "no"},
+        {"type": "text", "name": "t_off", "label": "Off", "disabled": "yes"},
         {"type": "select_one_external X", "name": "e1", "label": "E1", "choice_filter": "state=${t1}"},
         {"type": "acknowledge", "name": "k1", "label": "K1"},
         {"type": "note", "label": "N"},
         {"type": "range", "name": "rg", "label": "RG", "parameters": "start=1 end=5 step=1"},
     ]
-    h2 = ["type", "name", "label", "appearance", "default", "choice_filter", "parameters"]
-    c2 = [{"list_name": "L", "name": "l1", "label": "L1"}, {"list_name": "L", "name": "l2", "label": "L2"}, {"list_name": "L", "name": "l3"}, {"list_name": "M", "name": "m1", "label": "M1"}]  # l3: no label -> a choices-sheet warning with a row number
+    h2 = ["type", "name", "label", "appearance", "default", "choice_filter", "parameters", "disabled"]
+    c2 = [{"list_name": "L", "name": "l1", "label": "L1"}, {"list_name": "L", "name": "l2", "label": "L2"}, {"list_name": "L", "name": "l3"}, {"list_name": "M", "name": "m1", "label": "M1"},
+          {"list_name": "M", "name": "m1", "label": "M1 again"}]  # l3: no label -> a choices-sheet warning with a row number; m1 twice: needs allow_choice_duplicates
     x2 = [{"list_name": "X", "name": "x1", "label": "X1", "state": "s1"}, {"list_name": "X", "name": "x2", "label": "X2", "state": "s2"}]
     base2 = {"sheets": [_sheet("survey", h2, b2s), _sheet("choices", ["list_name", "name", "label"], c2), _sheet("external_choices", ["list_name", "name", "label", "state"], x2),
-                        _sheet("settings", ["form_title", "form_id"], [{"form_title": "Base Two", "form_id": "base_two"}])]}
+                        _sheet("settings", ["form_title", "form_id", "allow_choice_duplicates"], [{"form_title": "Base Two", "form_id": "base_two", "allow_choice_duplicates": "yes"}])]}
     L = lambda t: {f"label::{EN}": t, f"label::{FR}": t + " fr"}  # noqa: E731
     b3s = [
         {"type": "text", "name": "n1", **L("N1"), f"hint::{EN}": "hint one"},
@@ -121,7 +123,8 @@ def apply_steps(wb, steps, seed):
             nh = []
             for h in sh["header"]:
                 c, rest = _split(h)
-                if c.startswith("media") or c.startswith("bind"):
+                # (the deprecated 'disabled' column is matched literally by the row loop: it is not one of the documented, case-insensitive columns)
+                if c.startswith("media") or c.startswith("bind") or c.strip().lower() == "disabled":
                     nh.append(h)
                     continue
                 nh.append((c.title() if style == "title" else c.upper()) + rest)
@@ -164,7 +167,8 @@ def apply_steps(wb, steps, seed):
                             r[ti] = rnd.choice(alts) + t[len(base):]
                         break
         elif k == "truth_spelling":
-            for cname in ("required", "read_only", "readonly"):
+            # bind flags (BINDING_CONVERSIONS) and sheet-level flags (aliases.yes_no): the disabled column, settings switches
+            for cname in ("required", "read_only", "readonly", "disabled", "allow_choice_duplicates", "omit_instanceid", "omit_instanceID"):
                 ci = _col(sh, cname)
                 if ci is None:
                     continue
@@ -186,6 +190,15 @@ def apply_steps(wb, steps, seed):
                     if isinstance(c, str) and c and rnd.random() < 0.6:
                         r[i] = rnd.choice(["  ", " ", "\t"]) + c + rnd.choice(["  ", " "])
             if s == "survey":
+                # runs of blanks inside expression cells too (outside string literals: the bases have no blanks inside literals)
+                for cname in ("relevant", "relevance", "constraint", "calculation", "calculate", "constraint_message", "constraining_message", "choice_filter"):
+                    ci = _col(sh, cname)
+                    if ci is not None:
+                        for r in sh["rows"]:
+                            if isinstance(r[ci], str) and " " in r[ci].strip() and rnd.random() < 0.7:
+                                i0 = r[ci].strip().index(" ")
+                                t = r[ci].strip()
+                                r[ci] = t[:i0] + rnd.choice(["  ", "   ", "    "]) + t[i0 + 1:]
                 for cname in ("label", "hint", "caption"):
                     ci = _col(sh, cname)
                     if ci is not None:
